@@ -49,7 +49,7 @@ Laws == /\ Mode = "nowiki" => Recoverable(case.c) /\ Inert(case.c)
         /\ Mode = "nested" => \A i \in 1..Len(PaySeq) : Recoverable(PaySeq[i]) /\ Inert(PaySeq[i])
 Emit == IF Mode = "nested"
         THEN \E r \in {ER(Build(case.fs), TopMode(case.o), FALSE, case.o)} : \E pi \in {PayIdx(case.fs)} :
-               PrintT(<<"CASE", ToJson([fs |-> case.fs, o |-> case.o, exact |-> ~Ambiguous(case.fs),
+               PrintT(<<"CASE", ToJson([fs |-> case.fs, o |-> case.o, exact |-> Exact(case.fs),
                         vars |-> [i \in 1..Len(pi) |-> NestVariant(case.fs, r, PaySeq[pi[i]])]])>>)
         ELSE IF Mode = "nowiki"
         THEN PrintT(<<"CASE", ToJson([ctx |-> case.ctx, input |-> Input(case.ctx, case.c), expanded |-> Expanded(case.ctx, case.c),
